@@ -617,6 +617,21 @@ func run(s *core.Shard) {
 	// ---- part 3: dependency-ordered traversal (deadlock freedom, first error) -----
 	c13.TraversalSlice(s, next)
 
+	// ---- part 3b: the traversal at full speed on several CPUs -----------------------
+	for _, rev := range []bool{false, true} {
+		for _, root := range []string{"", "base", "chain-03", "lonely"} {
+			for _, max := range []int{0, 4} {
+				for _, shape := range [][2]int{{16, 40}, {6, 8}} {
+					f := &freeSpec{Fronts: shape[0], Chain: shape[1], Reverse: rev, Root: root, Max: max, Procs: 8, Rounds: s.Pick(40, 300)}
+					if !next(fmt.Sprintf("free-traversal/%v/%s/%d/%d", rev, root, max, shape[0])) {
+						continue
+					}
+					runFree(s, f)
+				}
+			}
+		}
+	}
+
 	// ---- part 1: concurrent loads ----------------------------------------------
 	rng := s.Rand("groups")
 	groups := s.Pick(640, 12000)
@@ -653,9 +668,16 @@ func replay(s *core.Shard, dir string) {
 		Part  int       `json:"part"`
 		Group groupSpec `json:"group"`
 		Fan   FanSpec   `json:"fan"`
+		Kind  string    `json:"kind"`
+		Spec  *freeSpec `json:"spec"`
 	}
 	if err := core.ReadJSON(filepath.Join(dir, "case.json"), &rc); err != nil {
 		s.Inconclusive("replay: " + err.Error())
+		return
+	}
+	if rc.Kind == "free-traversal" && rc.Spec != nil {
+		rc.Spec.Rounds *= 5
+		runFree(s, rc.Spec)
 		return
 	}
 	runtime.GOMAXPROCS(4)
